@@ -32,12 +32,10 @@ def find (s : Store TA M OA) (id : Nat) : Option (Track TA M OA) :=
 def setShard (s : Store TA M OA) (k : Nat) (sh : List (Nat × Track TA M OA)) : Store TA M OA :=
   { s with shards := s.shards.set k sh }
 
-/-- insert or overwrite `id` in its shard -/
+/-- insert or overwrite `id` in its shard (a `HashMap` insert: order is immaterial) -/
 def put (s : Store TA M OA) (id : Nat) (t : Track TA M OA) : Store TA M OA :=
   let k := shardOf s id
-  let sh := getShard s k
-  if sh.any (fun p => p.1 == id) then setShard s k (sh.map (fun p => if p.1 == id then (id, t) else p))
-  else setShard s k (sh ++ [(id, t)])
+  setShard s k ((getShard s k).filter (fun p => !(p.1 == id)) ++ [(id, t)])
 
 def remove (s : Store TA M OA) (id : Nat) : Store TA M OA :=
   let k := shardOf s id
@@ -99,11 +97,9 @@ def mergeOwned (cb : Cb TA M OA U Q E) (s : Store TA M OA) (dest srcId : Nat)
   match find s srcId with
   | none => (.error (.notFound srcId), s, 0)
   | some src =>
-    let s1 := remove s srcId
-    let (r, s2, k) := mergeExternal cb s1 dest src classes flag
-    match r with
-    | .ok () => if removeSrc then (.ok (some src), s2, k) else (.ok none, put s2 srcId src, k)
-    | .error e => (.error e, s, k)
+    match mergeExternal cb (remove s srcId) dest src classes flag with
+    | (.ok (), s2, k) => if removeSrc then (.ok (some src), s2, k) else (.ok none, put s2 srcId src, k)
+    | (.error e, _, k) => (.error e, s, k)
 
 /-- `lookup(q)`: the tracks satisfying the query, with their status -/
 def lookupQ (cb : Cb TA M OA U Q E) (s : Store TA M OA) (q : Q) : List (Nat × Except E Status) :=
